@@ -14,6 +14,27 @@ import (
 // Shared generator-source rules (GS). Each takes the rule id under which the calling property reports it.
 
 func genFn(c *Ctx, rule, name string) *ssa.Function {
+	if base, ok := strings.CutSuffix(name, "#emits"); ok {
+		// the function that walks the statement list and emits each element: the named function itself or a helper only it uses
+		fn := resolveRole(c, genPkg, base)
+		if fn == nil {
+			c.undecided(rule, base, "function "+base+" not found in internal/kessoku (neither by name nor by role)")
+			return nil
+		}
+		for _, g := range family(c.L, fn) {
+			if g.Parent() != nil {
+				continue
+			}
+			for _, cs := range callsIn(g) {
+				if cs.common.IsInvoke() && cs.common.Method.Name() == "Stmt" && len(cs.common.Args) == 3 {
+					c.seen(fnName(g))
+					return g
+				}
+			}
+		}
+		c.seen(fnName(fn))
+		return fn
+	}
 	fn := resolveRole(c, genPkg, name)
 	if fn == nil {
 		c.undecided(rule, name, "function "+name+" not found in internal/kessoku (neither by name nor by role)")
@@ -592,6 +613,20 @@ func stmtElems(L *Loaded, fn *ssa.Function) []stmtElem {
 	for _, a := range appendsIn(L, fn) {
 		out = append(out, stmtElem{a.call, a.call.Common().Args[1], a.label})
 	}
+	// list = helper(list, ...): a helper that returns the list it was given, possibly with elements appended at the end
+	for _, b := range fn.Blocks {
+		for _, in := range b.Instrs {
+			call, ok := in.(*ssa.Call)
+			if !ok {
+				continue
+			}
+			cal := call.Common().StaticCallee()
+			if cal == nil || !strings.HasPrefix(fnPkgPath(cal), modPath) || accumulatorParam(cal) < 0 {
+				continue
+			}
+			out = append(out, stmtElem{call, call, "acc:" + cal.Name()})
+		}
+	}
 	// elements of []ast.Stmt literals
 	for _, b := range fn.Blocks {
 		for _, in := range b.Instrs {
@@ -1098,4 +1133,57 @@ func condRootedAtCall(v ssa.Value) bool {
 		return false
 	}
 	return false
+}
+
+// accumulatorParam: the index of the []ast.Stmt parameter that fn returns on every path, as it is or with elements appended
+// at its end (list = helper(list, ...)); -1 when fn is not of that shape.
+func accumulatorParam(fn *ssa.Function) int {
+	if fn == nil || len(fn.Blocks) == 0 || fn.Signature.Results().Len() != 1 || !strings.HasSuffix(fn.Signature.Results().At(0).Type().String(), "[]go/ast.Stmt") {
+		return -1
+	}
+	for i, p := range fn.Params {
+		if !strings.HasSuffix(p.Type().String(), "[]go/ast.Stmt") {
+			continue
+		}
+		var grows func(v ssa.Value, d int) bool
+		grows = func(v ssa.Value, d int) bool {
+			if d > 6 {
+				return false
+			}
+			v = resolve(v)
+			if v == ssa.Value(p) {
+				return true
+			}
+			switch x := v.(type) {
+			case *ssa.Call:
+				if bi, ok := x.Common().Value.(*ssa.Builtin); ok && bi.Name() == "append" && len(x.Common().Args) >= 1 {
+					return grows(x.Common().Args[0], d+1)
+				}
+			case *ssa.Phi:
+				for _, e := range x.Edges {
+					if !grows(e, d+1) {
+						return false
+					}
+				}
+				return len(x.Edges) > 0
+			}
+			return false
+		}
+		all, n := true, 0
+		for _, b := range fn.Blocks {
+			if len(b.Instrs) == 0 {
+				continue
+			}
+			if r, ok := b.Instrs[len(b.Instrs)-1].(*ssa.Return); ok && len(r.Results) == 1 {
+				n++
+				if !grows(r.Results[0], 0) {
+					all = false
+				}
+			}
+		}
+		if all && n > 0 {
+			return i
+		}
+	}
+	return -1
 }
